@@ -63,6 +63,7 @@ func checkC03(c c03Case, o *Obs) error {
 	o.LabelIf(len(c.Recs) > 50, "records>50")
 	o.LabelIf(len(c.Ref.Seq) > 4096, "width>4096")
 	o.LabelIf(len(c.Recs)*len(c.Ref.Seq) >= 1<<20, "alignment>=1MiB")
+	o.LabelIf(len(c.Ref.Seq) > 65535, "width>65535")
 	for _, l := range strings.Split(want, "\n") {
 		o.LabelIf(len(l) > 65536, "output-row>64KiB")
 	}
@@ -111,7 +112,7 @@ func genAlnSeq(t *rapid.T, n int, label string) string {
 // genC03Bulk: an alignment whose total size (records x width) is beyond 1 MiB / 2 MiB - the everyday size of a real run
 // (35 SARS-CoV-2 genomes are 1 MiB) - built from a handful of drawn templates so that generation stays cheap.
 func genC03Bulk(t *rapid.T) c03Case {
-	w := rapid.SampledFrom([]int{2000, 5000, 29903}).Draw(t, "bulkWidth")
+	w := rapid.SampledFrom([]int{2000, 5000, 29903, 70000}).Draw(t, "bulkWidth") // 70000: column numbers beyond 16 bits
 	total := rapid.SampledFrom([]int{1100000, 1300000, 2200000}).Draw(t, "bulkTotal")
 	unit := genACGT(t, 997, "bulkUnit")
 	ref := []byte(strings.Repeat(unit, w/997+1)[:w])
@@ -136,6 +137,8 @@ func genC03Bulk(t *rapid.T) c03Case {
 			for k := rapid.IntRange(1, 12).Draw(t, "nchanges"); k > 0; k-- {
 				b[rapid.IntRange(0, w-1).Draw(t, "chpos")] = alpha17[rapid.IntRange(0, 16).Draw(t, "chsym")]
 			}
+			// and one in the last columns, whatever the draws above favour
+			b[w-1-rapid.IntRange(0, 99).Draw(t, "lateChange")] = alpha17[rapid.IntRange(0, 16).Draw(t, "chsym")]
 		}
 		templates = append(templates, string(b))
 	}
